@@ -907,6 +907,11 @@ class TunnelCommunity(Community):
             self.logger.warning("Received unexpected extend for circuit %d", payload.circuit_id)
             return
 
+        if request.extend_identifier == payload.identifier:
+            self.logger.warning("Ignoring duplicate extend for circuit %d", payload.circuit_id)
+            return
+        request.extend_identifier = payload.identifier
+
         if payload.node_addr == ("0.0.0.0", 0) and payload.node_public_key not in request.candidates:
             self.logger.warning("Node public key not in request candidates and no ip specified")
             return
